@@ -31,7 +31,7 @@ pub open spec fn own_from<C: ServerContext>(keys: Seq<String>, n: HttpRouterNode
 }
 /// the (method name, endpoint) pairs of ONE node that are served at the version
 pub open spec fn own_pairs<C: ServerContext>(n: HttpRouterNode<C>, version: Option<&Version>) -> Seq<Pair<C>> {
-    own_from(key_order(n.methods@), n, version)
+    own_from(key_order(n.methods@.dom()), n, version)
 }
 /// the same pairs, each with the route of the node they were found at
 pub open spec fn attach<C: ServerContext>(route: Route, s: Seq<Pair<C>>) -> Seq<Listed<C>> {
@@ -45,7 +45,7 @@ pub open spec fn own_items<C: ServerContext>(route: Route, n: HttpRouterNode<C>,
 pub open spec fn children<C: ServerContext>(n: HttpRouterNode<C>) -> Seq<(PathSegment, HttpRouterNode<C>)> {
     match n.edges {
         None => Seq::empty(),
-        Some(HttpRouterEdges::Literals(m)) => Seq::new(key_order(m@).len(), |i: int| (PathSegment::Literal(key_order(m@)[i]), *m@[key_order(m@)[i]])),
+        Some(HttpRouterEdges::Literals(m)) => Seq::new(key_order(m@.dom()).len(), |i: int| (PathSegment::Literal(key_order(m@.dom())[i]), *m@[key_order(m@.dom())[i]])),
         Some(HttpRouterEdges::VariableSingle(name, child)) => seq![(PathSegment::VarnameSegment(name), *child)],
         Some(HttpRouterEdges::VariableRest(name, child)) => seq![(PathSegment::VarnameSegment(name), *child)],
     }
@@ -57,7 +57,7 @@ pub open spec fn dfs<C: ServerContext>(n: HttpRouterNode<C>, route: Route, versi
 {
     own_items(route, n, version) + (match n.edges {
         None => Seq::empty(),
-        Some(HttpRouterEdges::Literals(m)) => dfs_lit(m, key_order(m@), route, version),
+        Some(HttpRouterEdges::Literals(m)) => dfs_lit(m, key_order(m@.dom()), route, version),
         Some(HttpRouterEdges::VariableSingle(name, child)) => dfs(*child, route.push(PathSegment::VarnameSegment(name)), version),
         Some(HttpRouterEdges::VariableRest(name, child)) => dfs(*child, route.push(PathSegment::VarnameSegment(name)), version),
     })
@@ -99,11 +99,11 @@ pub proof fn dfs_unfold<C: ServerContext>(n: HttpRouterNode<C>, route: Route, ve
     match n.edges {
         None => {}
         Some(HttpRouterEdges::Literals(m)) => {
-            assert forall|i: int| 0 <= i < key_order(m@).len() implies m@.contains_key(#[trigger] key_order(m@)[i]) by {
-                assert(key_order(m@).contains(key_order(m@)[i]));
+            assert forall|i: int| 0 <= i < key_order(m@.dom()).len() implies m@.contains_key(#[trigger] key_order(m@.dom())[i]) by {
+                assert(key_order(m@.dom()).contains(key_order(m@.dom())[i]));
             }
-            lit_flat(m, key_order(m@), route, version);
-            assert(children(n) =~= lit_children(m, key_order(m@)));
+            lit_flat(m, key_order(m@.dom()), route, version);
+            assert(children(n) =~= lit_children(m, key_order(m@.dom())));
         }
         Some(HttpRouterEdges::VariableSingle(name, child)) => {
             let s = children(n);
@@ -292,11 +292,11 @@ pub proof fn listing_is_exact<C: ServerContext>(n: HttpRouterNode<C>, route: Rou
     decreases n, 0nat
 {
     broadcast use ax_key_order;
-    own_from_contains(key_order(n.methods@), n, version, m, e);
+    own_from_contains(key_order(n.methods@.dom()), n, version, m, e);
     attach_contains(route, own_pairs(n, version), at, m, e);
     let below: Seq<Listed<C>> = match n.edges {
         None => Seq::empty(),
-        Some(HttpRouterEdges::Literals(mp)) => dfs_lit(mp, key_order(mp@), route, version),
+        Some(HttpRouterEdges::Literals(mp)) => dfs_lit(mp, key_order(mp@.dom()), route, version),
         Some(HttpRouterEdges::VariableSingle(name, child)) => dfs(*child, route.push(PathSegment::VarnameSegment(name)), version),
         Some(HttpRouterEdges::VariableRest(name, child)) => dfs(*child, route.push(PathSegment::VarnameSegment(name)), version),
     };
@@ -307,10 +307,10 @@ pub proof fn listing_is_exact<C: ServerContext>(n: HttpRouterNode<C>, route: Rou
     match n.edges {
         None => {}
         Some(HttpRouterEdges::Literals(mp)) => {
-            lit_listing_is_exact(mp, key_order(mp@), route, version, at, m, e);
+            lit_listing_is_exact(mp, key_order(mp@.dom()), route, version, at, m, e);
             if exists|k: String| #[trigger] mp@.contains_key(k) && holds(*mp@[k], route.push(PathSegment::Literal(k)), at, m, e) {
                 let k = choose|k: String| #[trigger] mp@.contains_key(k) && holds(*mp@[k], route.push(PathSegment::Literal(k)), at, m, e);
-                assert(key_order(mp@).contains(k));
+                assert(key_order(mp@.dom()).contains(k));
             }
         }
         Some(HttpRouterEdges::VariableSingle(name, child)) => { listing_is_exact(*child, route.push(PathSegment::VarnameSegment(name)), version, at, m, e); }
@@ -424,7 +424,7 @@ pub proof fn one_operation_per_method<C: ServerContext>(n: HttpRouterNode<C>, v:
         forall|m: String, e1: ApiEndpoint<C>, e2: ApiEndpoint<C>| own_pairs(n, Some(v)).contains((m, e1)) && own_pairs(n, Some(v)).contains((m, e2)) ==> e1 == e2,
 {
     broadcast use ax_key_order;
-    let keys = key_order(n.methods@);
+    let keys = key_order(n.methods@.dom());
     assert forall|i: int| 0 <= i < keys.len() implies n.methods@.contains_key(#[trigger] keys[i]) by { assert(keys.contains(keys[i])); }
     own_from_no_duplicates(keys, n, v);
     assert forall|m: String, e1: ApiEndpoint<C>, e2: ApiEndpoint<C>| own_pairs(n, Some(v)).contains((m, e1)) && own_pairs(n, Some(v)).contains((m, e2)) implies e1 == e2 by {
@@ -490,3 +490,107 @@ pub proof fn doc_of_step<C: ServerContext>(s: Seq<Listed<C>>, t: Seq<Listed<C>>)
     requires s.len() > 0, t == s.skip(1),
     ensures doc_of(s) == (if s[0].2.visible { seq![(render(s[0].0), s[0].1, s[0].2)] } else { Seq::empty() }) + doc_of(t)
 {}
+
+// ---- "the document is the same whatever order the endpoints were registered in": the one thing in a trie that
+// records registration order -- the order inside the list kept for one method name -- does not reach the listing ----
+pub open spec fn same_members<T>(a: Seq<T>, b: Seq<T>) -> bool { forall|x: T| a.contains(x) <==> b.contains(x) }
+/// two tries of the same shape that hold, for every node and method name, the same endpoints in any order
+pub open spec fn agree_mod_order<C: ServerContext>(a: HttpRouterNode<C>, b: HttpRouterNode<C>) -> bool
+    decreases a
+{
+    &&& a.methods@.dom() == b.methods@.dom()
+    &&& (forall|k: String| #[trigger] a.methods@.contains_key(k) ==> same_members(a.methods@[k]@, b.methods@[k]@))
+    &&& match (a.edges, b.edges) {
+        (None, None) => true,
+        (Some(HttpRouterEdges::Literals(ma)), Some(HttpRouterEdges::Literals(mb))) =>
+            ma@.dom() == mb@.dom() && (forall|k: String| #[trigger] ma@.contains_key(k) ==> agree_mod_order(*ma@[k], *mb@[k])),
+        (Some(HttpRouterEdges::VariableSingle(x, ca)), Some(HttpRouterEdges::VariableSingle(y, cb))) => x == y && agree_mod_order(*ca, *cb),
+        (Some(HttpRouterEdges::VariableRest(x, ca)), Some(HttpRouterEdges::VariableRest(y, cb))) => x == y && agree_mod_order(*ca, *cb),
+        _ => false,
+    }
+}
+pub open spec fn pairwise_disjoint<C: ServerContext>(hs: Seq<ApiEndpoint<C>>) -> bool {
+    forall|i: int, j: int| #![trigger hs[i], hs[j]] 0 <= i < j < hs.len() ==> !shared(hs[i].versions, hs[j].versions)
+}
+pub proof fn kept_same<C: ServerContext>(m: String, h1: Seq<ApiEndpoint<C>>, h2: Seq<ApiEndpoint<C>>, v: &Version)
+    requires pairwise_disjoint(h1), pairwise_disjoint(h2), same_members(h1, h2),
+    ensures kept(m, h1, Some(v)) == kept(m, h2, Some(v))
+{
+    let k1 = kept(m, h1, Some(v));
+    let k2 = kept(m, h2, Some(v));
+    kept_at_most_one(m, h1, v);
+    kept_at_most_one(m, h2, v);
+    if k1.len() == 1 {
+        assert(k1.contains(k1[0]));
+        kept_contains(m, h1, Some(v), k1[0].0, k1[0].1);
+        kept_contains(m, h2, Some(v), k1[0].0, k1[0].1);
+        let i = choose|i: int| 0 <= i < k2.len() && k2[i] == k1[0];
+    }
+    if k2.len() == 1 {
+        assert(k2.contains(k2[0]));
+        kept_contains(m, h2, Some(v), k2[0].0, k2[0].1);
+        kept_contains(m, h1, Some(v), k2[0].0, k2[0].1);
+        let i = choose|i: int| 0 <= i < k1.len() && k1[i] == k2[0];
+    }
+    assert(k1 =~= k2);
+}
+pub proof fn own_from_same<C: ServerContext>(keys: Seq<String>, a: HttpRouterNode<C>, b: HttpRouterNode<C>, v: &Version)
+    requires wf_node(a), wf_node(b),
+        forall|i: int| 0 <= i < keys.len() ==> a.methods@.contains_key(#[trigger] keys[i]) && b.methods@.contains_key(keys[i])
+            && same_members(a.methods@[keys[i]]@, b.methods@[keys[i]]@),
+    ensures own_from(keys, a, Some(v)) == own_from(keys, b, Some(v))
+    decreases keys.len()
+{
+    if keys.len() > 0 {
+        let t = keys.skip(1);
+        assert forall|i: int| 0 <= i < t.len() implies a.methods@.contains_key(#[trigger] t[i]) && b.methods@.contains_key(t[i])
+            && same_members(a.methods@[t[i]]@, b.methods@[t[i]]@) by { assert(t[i] == keys[i + 1]); }
+        own_from_same(t, a, b, v);
+        assert(a.methods@.contains_key(keys[0]) && b.methods@.contains_key(keys[0]));
+        kept_same(keys[0], handlers_for(a, keys[0]), handlers_for(b, keys[0]), v);
+    }
+}
+pub proof fn listing_ignores_the_order_inside_a_method_list<C: ServerContext>(a: HttpRouterNode<C>, b: HttpRouterNode<C>, route: Route, v: &Version)
+    requires wf_node(a), wf_node(b), agree_mod_order(a, b),
+    ensures dfs(a, route, Some(v)) == dfs(b, route, Some(v))
+    decreases a, 0nat
+{
+    broadcast use ax_key_order;
+    let keys = key_order(a.methods@.dom());
+    assert forall|i: int| 0 <= i < keys.len() implies a.methods@.contains_key(#[trigger] keys[i]) && b.methods@.contains_key(keys[i])
+        && same_members(a.methods@[keys[i]]@, b.methods@[keys[i]]@) by {
+        assert(keys.contains(keys[i]));
+        assert(a.methods@.dom().contains(keys[i]));
+        assert(b.methods@.dom().contains(keys[i]));
+    }
+    own_from_same(keys, a, b, v);
+    match (a.edges, b.edges) {
+        (Some(HttpRouterEdges::Literals(ma)), Some(HttpRouterEdges::Literals(mb))) => {
+            lit_listing_ignores_order(ma, mb, key_order(ma@.dom()), route, v);
+        }
+        (Some(HttpRouterEdges::VariableSingle(x, ca)), Some(HttpRouterEdges::VariableSingle(y, cb))) => {
+            listing_ignores_the_order_inside_a_method_list(*ca, *cb, route.push(PathSegment::VarnameSegment(x)), v);
+        }
+        (Some(HttpRouterEdges::VariableRest(x, ca)), Some(HttpRouterEdges::VariableRest(y, cb))) => {
+            listing_ignores_the_order_inside_a_method_list(*ca, *cb, route.push(PathSegment::VarnameSegment(x)), v);
+        }
+        _ => {}
+    }
+}
+pub proof fn lit_listing_ignores_order<C: ServerContext>(ma: BTreeMap<String, Box<HttpRouterNode<C>>>, mb: BTreeMap<String, Box<HttpRouterNode<C>>>,
+    keys: Seq<String>, route: Route, v: &Version)
+    requires ma@.dom() == mb@.dom(),
+        forall|k: String| #[trigger] ma@.contains_key(k) ==> wf_node(*ma@[k]) && wf_node(*mb@[k]) && agree_mod_order(*ma@[k], *mb@[k]),
+    ensures dfs_lit(ma, keys, route, Some(v)) == dfs_lit(mb, keys, route, Some(v))
+    decreases ma, keys.len()
+{
+    if keys.len() > 0 {
+        lit_listing_ignores_order(ma, mb, keys.skip(1), route, v);
+        assert(ma@.contains_key(keys[0]) == mb@.contains_key(keys[0])) by {
+            assert(ma@.dom().contains(keys[0]) == mb@.dom().contains(keys[0]));
+        }
+        if ma@.contains_key(keys[0]) {
+            listing_ignores_the_order_inside_a_method_list(*ma@[keys[0]], *mb@[keys[0]], route.push(PathSegment::Literal(keys[0])), v);
+        }
+    }
+}
